@@ -41,6 +41,22 @@ DEFECTS = ["overload", "open_switch", "line_off", "tiny_line", "bus_off", "none"
 PRISTINE = {}
 
 
+def fresh_modules():
+    """Re-execute the diagnostic modules, as a fresh process would on import: class attributes, module-level
+    defaults and the shared default function objects all start anew.  Every episode (and every isolated
+    reference call) begins with this, which emulates one process per episode for this package."""
+    import importlib
+    import sys
+    importlib.import_module("pandapower.diagnostic")
+    dfm = importlib.reload(sys.modules["pandapower.diagnostic.diagnostic_functions"])
+    dm = importlib.reload(sys.modules["pandapower.diagnostic.diagnostic"])
+    PRISTINE["kwargs"] = dict(dfm.default_argument_values)
+    PRISTINE["functions"] = list(dfm.default_diagnostic_functions)
+    PRISTINE["Diagnostic"] = dm.Diagnostic
+    PRISTINE["dfm"] = dfm
+    return dm.Diagnostic
+
+
 def warm():
     from pandapower.diagnostic import Diagnostic
     import importlib
@@ -59,10 +75,7 @@ def warm():
 
 
 def warm_light():
-    import importlib
-    dfm = importlib.import_module("pandapower.diagnostic.diagnostic_functions")
-    PRISTINE["kwargs"] = dict(dfm.default_argument_values)
-    PRISTINE["functions"] = list(dfm.default_diagnostic_functions)
+    fresh_modules()
 
 
 def generate(rng, idx, tier):
@@ -174,14 +187,12 @@ class ClientModel:
 def make_function(fn, Probe):
     """fn: int -> probe function; str -> a fresh object of that pandapower diagnostic function class"""
     if isinstance(fn, str):
-        import importlib
-        dfm = importlib.import_module("pandapower.diagnostic.diagnostic_functions")
-        return getattr(dfm, fn)()
+        return getattr(PRISTINE["dfm"], fn)()
     return Probe(fn)
 
 
 def construct(add_default, registrations, Probe):
-    from pandapower.diagnostic import Diagnostic
+    Diagnostic = PRISTINE["Diagnostic"]
     d = Diagnostic(add_default_functions=add_default)
     for fn, args, name in registrations:
         d.register_function(make_function(fn, Probe), args, name)
@@ -191,7 +202,7 @@ def construct(add_default, registrations, Probe):
 def construct_from_fresh_objects(add_default, registrations, Probe):
     """the same configuration built through the public API from brand-new function objects (also for the
     defaults, which are module-level singletons shared by all Diagnostic instances)"""
-    from pandapower.diagnostic import Diagnostic
+    Diagnostic = PRISTINE["Diagnostic"]
     d = Diagnostic(add_default_functions=False)
     if add_default:
         for name, f, args in PRISTINE["functions"]:
@@ -209,6 +220,7 @@ def _isolated_call(add_default, registrations, net_before, options):
         code = 0
         try:
             os.close(r)
+            fresh_modules()          # (fork copies the parent's - possibly polluted - module state)
             Probe = make_probe_class()
             d = construct(add_default, registrations, Probe)
             try:
@@ -230,12 +242,9 @@ def _isolated_call(add_default, registrations, net_before, options):
 
 
 def execute(ep, ctx):
-    from pandapower.diagnostic.diagnostic_functions import default_diagnostic_functions, default_argument_values
-    if not PRISTINE:
-        warm_light()
-    default_argument_values.clear()
-    default_argument_values.update(PRISTINE["kwargs"])
-    default_diagnostic_functions[:] = PRISTINE["functions"]
+    fresh_modules()
+    default_diagnostic_functions = PRISTINE["functions"]
+    default_argument_values = PRISTINE["kwargs"]
     Probe = make_probe_class()
     # defaults as a *fresh process* has them -- taken from a pristine import in the warm parent is
     # not possible in-process (that is the leak under test), so they are read once per episode and
@@ -263,8 +272,7 @@ def execute(ep, ctx):
         c = op["client"]
         if k == "new" or c not in clients:
             add_default = op.get("add_default", not ctx.ep["cfg"].get("light", False))
-            from pandapower.diagnostic import Diagnostic
-            clients[c] = Diagnostic(add_default_functions=add_default)
+            clients[c] = PRISTINE["Diagnostic"](add_default_functions=add_default)
             models[c] = ClientModel(add_default, default_names, PRISTINE_KW)
             global_hist.append((c, "new"))
             ctx.event("new", c, add_default)
